@@ -212,7 +212,13 @@ class C17(Property):
           script.append(["stop", i])
         elif st["paused"]:
           script.append(["resume" if W.choose("fixp", 2) == 0 else "stop", i])
-    wl = {"wait": wait, "script": script,
+    observe = None
+    if specs and W.chance("observe", 1, 60):
+      # observation channel (never deciding): a source or a device that fails
+      observe = {"what": W.pick("obs", ["source-raises", "write-raises"]),
+                 "player": W.choose("obsp", len(specs)),
+                 "at": W.choose("obsat", 4)}
+    wl = {"wait": wait, "script": script, "observe": observe,
           "ctx": W.weighted("ctx", [(6, "close"), (2, "terminate"),
                                     (3, "with"), (1, "with-exc")]),
           "api": W.weighted("api", [(5, None), (1, "jack")]),
@@ -388,6 +394,15 @@ class C17(Property):
 
     world = backend.World(sched, stall_fn)
     backend.set_world(world)
+    if workload.get("observe") and \
+       workload["observe"]["what"] == "write-raises":
+      count = [0]
+
+      def write_fault(stream, at=workload["observe"]["at"]):
+        count[0] += 1
+        if count[0] == at + 1:
+          raise IOError(-9999, "injected device failure")
+      world.write_fault = write_fault
     lden = knobs.get("late_den", 0)
 
     def on_player_start(thread_obj, st):
@@ -411,7 +426,24 @@ class C17(Property):
     outcome = {}
     old_size = lio.chunks.size
 
+    obs = workload.get("observe")
+    if obs:
+      knobs["step_cap"] = 6000
+      sched.cap = 6000
+
+    def failing(it, at):
+      for j, v in enumerate(it):
+        if j == at:
+          raise ValueError("injected failure of the played iterable")
+        yield v
+
     def make_audio(p, spec):
+      if obs and obs["what"] == "source-raises" and obs["player"] == p \
+         and spec["kind"] != "rec":
+        inner = dict(spec)
+        vals = audio_values(p, inner, 12) if inner["kind"] == "periodic" \
+          else audio_values(p, inner)
+        return failing(iter(vals), obs["at"])
       if spec["kind"] == "rec":
         # input device looped to the output through the real RecStream
         return ctl["aio"].record(chunk_size=spec["len"], dfmt=spec["dfmt"])
@@ -582,7 +614,23 @@ class C17(Property):
                                        self._op_at(workload, ctl["pos"])),
                             traceback.format_exc()[-1500:])
 
-    if violation is None and not sched.budget_exhausted:
+    if workload.get("observe"):
+      # failing sources / devices are outside the statement: record what the
+      # code does, judge nothing
+      crashed = any(t.crashed is not None for t in sched.threads)
+      if sched.budget_exhausted:
+        how = "step budget exhausted before close"
+      elif violation is None:
+        how = "close returned"
+      elif "no-progress" in violation.klass or "bound" in violation.klass:
+        how = "close never returns (the dead player is never deregistered)"
+      else:
+        how = violation.klass
+      res.observations.append("%s: player thread %s, %s"
+                              % (workload["observe"]["what"],
+                                 "died" if crashed else "survived", how))
+      violation = None
+    elif violation is None and not sched.budget_exhausted:
       violation = self.judge(workload, specs, ctl, world, outcome, sched)
     res.violation = violation
 
